@@ -332,6 +332,21 @@ theorem touch_upd (σ : Spec.State) (r u : Nat) (p : Bool) (g : Spec.Room → Sp
 
 theorem hv_addPrivileged (u : Nat) : view (handle env s (.addPrivileged u)).st = Spec.apply env (view s) (.addPrivileged u) := by
   simp only [handle, Spec.apply, view_withUser]
+  -- the user is also added to the privileged set: that changes what a not-yet-created object of `u` would look
+  -- like (privileged — which the update sets anyway) and nothing for any other user
+  apply state_ext
+  · rfl
+  · funext v
+    simp only [Spec.State.upd, view, State.getUser, State.newUser]
+    by_cases hv : v = u
+    · subst hv
+      simp only [if_true]
+      cases AL.find v s.users <;> simp
+    · simp only [hv, if_false]
+      cases AL.find v s.users with
+      | some x => rfl
+      | none => simp [hv]
+  · rfl
 
 theorem hv_userStats (u : Nat) (k : Stats) : view (handle env s (.userStats u k)).st = Spec.apply env (view s) (.userStats u k) := by
   simp only [handle, Spec.apply, view_withUser]
